@@ -455,6 +455,9 @@ def run_history(c, stats):
                     # the damaged object keeps answering from its damaged state: re-synchronise its provenance so
                     # that one alias is reported once, not on every later answer
                     pool[i]["tainted"] = True
+                    if mut and pool[i]["obj"] is entry["obj"]:
+                        # one object under two pool entries: the provenance of neither entry describes it any more
+                        entry["tainted"] = True
     # ---- offline checker over the event log
     with core.oracle_mode():
         for ev in events:
